@@ -23,23 +23,41 @@ Clause → theorem
   itself, a later, a non-existent variable      model_desc_ok_iff_wellformed, model_desc_ok_hierarchy,
                                                 model_desc_ok_hier (⇒ `Hier`, the hypothesis of C01/C06/C07)
   the reported dimension is the first offending one
-                                                first_error_position, first_error_dim_illformed
+                                                first_error_position, first_error_dim_illformed;
+                                                what a reported parameter error means: paramCheck_some,
+                                                check2_some, check1_some, first_error_param_meaning
   the code before the fix accepted non-hierarchical descriptions (DESIGN 4 #8)
-                                                old_validate_accepts_non_hier_counterexample
+                                                COUNTER-MODEL (`validateDescOld`, never run by the driver
+                                                on the present tree): old_validate_accepts_non_hier_counterexample
   data / fit descriptions of the wrong dimension, without method, unknown fit method, unknown
   weights keyword, unknown reference keyword and too few intervals while fitting
-                                                fit_ok_iff_wellformed, fit_first_error_position
+                                                fit_ok_iff_wellformed; fit_error_cases (EVERY error: wrong
+                                                length / first description without 'method' / data shape /
+                                                per-dimension loop); fit_first_error_position, fitLoop_error
+                                                (per-dimension loop ONLY - description and data errors are
+                                                excluded by their hypotheses: first offending dimension, the
+                                                check reported there, argument 0)
   data of the wrong dimension, over the SHAPE of np.array(data): scalar, flat sequence (of n_rows or
   of exactly n_dim values), last axis ≠ n_dim     checkData_ok_iff, checkData_error
   malformed HDC limits / deltas (lengths, tuple lengths, entries that are not finite numbers,
-  zero / negative / NaN steps)                  grid_ok_iff_wellformed (for n_dim ≥ 1), grid_first_error_position
-  NaN in the HDC density table (anchored raise sites; not in the property's list: correspondence only)
-                                                density_ok_iff_wellformed
+  zero / negative / NaN steps)                  grid_ok_iff_wellformed (for n_dim ≥ 1; at n_dim = 0 the model
+                                                accepts vacuously, see the example), grid_first_error_position
+                                                (EVERY error, five cases: limits length / deltas length /
+                                                first limit without default step / first bad cell of the
+                                                _compute loop / first negative step),
+                                                grid_first_error_position_compute_loop (the former statement)
   unknown slicer options, reference keywords, too few intervals
-                                                slicer_ok_iff_wellformed, slicer_too_few_iff
-  non-finite evaluation points                  points_ok_iff_wellformed, points_error_kind
-  non-2-D models for the 2-D-only contours      twod_ok_iff_wellformed
-  IFORM model type                              iform_model_ok_iff_wellformed
+                                                slicer_ok_iff_wellformed, slicer_too_few_iff (any valid
+                                                reference keyword or callable), sliceCheck_tooFew_iff
+  non-finite evaluation points                  points_ok_iff_wellformed (`List.all` ↔ `∀`, little more than
+                                                an unfolding)
+  ONE-STEP UNFOLDINGS of one-line model functions (no content beyond the definition; the content of these
+  clauses is the correspondence with the code, observed on every run):
+    NaN in the HDC density table (anchored raise sites; not in the property's list)
+                                                density_ok_iff_unfold
+    non-finite points give a ValueError         points_error_kind_unfold
+    non-2-D models for the 2-D-only contours    twod_ok_iff_unfold
+    IFORM model type                            iform_model_ok_iff_unfold
 
 Reading of "where they are supplied": the model description is checked by the constructor; fit
 specifications by `fit` before the numerical fit of the offending dimension (earlier dimensions are
@@ -125,6 +143,28 @@ theorem firstFail_error {β : Type} (chk : Nat → β → Option (Check × Nat))
           have := hb j' (by omega)
           simpa [Nat.add_assoc, Nat.add_comm 1 j'] using this
 
+/-- `firstFail_error` for the loops whose check does not depend on the position and has no argument
+(`(c x).map fun k => (k, 0)`, started at position 0): the reported position is in range, the check
+reported is the one `c` returns there, the argument is 0 and `c` passes at every earlier position -/
+theorem firstFail_map_error {β : Type} (c : β → Option Check) (l : List β) (e : Err)
+    (he : firstFail (fun _ x => (c x).map fun k => (k, 0)) 0 l = .error e) :
+    ∃ hi : e.pos < l.length, c l[e.pos] = some e.check ∧ e.arg = 0 ∧
+      ∀ j (hj : j < e.pos), c (l[j]'(Nat.lt_trans hj hi)) = none := by
+  obtain ⟨i, hi, hp, hc, hb⟩ := firstFail_error _ 0 l e he
+  simp only [Nat.zero_add] at hp hc hb
+  subst hp
+  refine ⟨hi, ?_, ?_, ?_⟩
+  · cases hk : c l[e.pos] with
+    | none => rw [hk] at hc; cases hc
+    | some k => rw [hk] at hc; simp only [Option.map_some, Option.some.injEq, Prod.mk.injEq] at hc; rw [hc.1]
+  · cases hk : c l[e.pos] with
+    | none => rw [hk] at hc; cases hc
+    | some k => rw [hk] at hc; simp only [Option.map_some, Option.some.injEq, Prod.mk.injEq] at hc; exact hc.2.symm
+  · intro j hj
+    have := hb j hj
+    cases hk : c (l[j]'(Nat.lt_trans hj hi)) with
+    | none => rfl
+    | some k => rw [hk] at this; cases this
 
 /-! ### model descriptions -/
 
@@ -174,6 +214,63 @@ theorem check2_none_iff (d : DimDesc) :
         have := List.find?_eq_none.mp hfind p hp
         simpa using this
       exact ⟨fun h => ⟨this, h⟩, fun h => h.2⟩
+
+/-- what a parameter error of `ConditionalDistribution.__init__` means: the named parameter is one
+of the distribution's, it is both fixed and dependent (`paramBoth`) or neither (`paramNeither`) -/
+theorem paramCheck_some (d : DimDesc) (ps : List Nat) (c : Check) (p : Nat)
+    (h : paramCheck d ps = some (c, p)) :
+    p ∈ ps ∧ ((c = .paramBoth ∧ p ∈ d.dependent ∧ p ∈ d.fixed) ∨
+      (c = .paramNeither ∧ p ∉ d.dependent ∧ p ∉ d.fixed)) := by
+  induction ps with
+  | nil => simp [paramCheck] at h
+  | cons q qs ih =>
+    by_cases hd : q ∈ d.dependent <;> by_cases hf : q ∈ d.fixed <;>
+      simp only [paramCheck, List.contains_iff_mem, hd, hf, if_true, if_false,
+        Option.some.injEq, Prod.mk.injEq] at h
+    · obtain ⟨rfl, rfl⟩ := h
+      exact ⟨List.mem_cons_self .., Or.inl ⟨rfl, hd, hf⟩⟩
+    · obtain ⟨h1, h2⟩ := ih h
+      exact ⟨List.mem_cons_of_mem _ h1, h2⟩
+    · obtain ⟨h1, h2⟩ := ih h
+      exact ⟨List.mem_cons_of_mem _ h1, h2⟩
+    · obtain ⟨rfl, rfl⟩ := h
+      exact ⟨List.mem_cons_self .., Or.inr ⟨rfl, hd, hf⟩⟩
+
+/-- what a phase-2 error means (the second disjunct of `first_error_position`): the dimension is
+conditional and either a key of its `parameters` dict is not a parameter of the distribution
+(`unknownParam`), or all keys are known and a parameter of the distribution is both fixed and
+dependent / neither -/
+theorem check2_some (d : DimDesc) (c : Check) (p : Nat) (h : check2 d = some (c, p)) :
+    d.conditionalOn ≠ none ∧
+    ((c = .unknownParam ∧ p ∈ d.dependent ∧ p ∉ d.paramNames) ∨
+     ((∀ q ∈ d.dependent, q ∈ d.paramNames) ∧ p ∈ d.paramNames ∧
+       ((c = .paramBoth ∧ p ∈ d.dependent ∧ p ∈ d.fixed) ∨
+        (c = .paramNeither ∧ p ∉ d.dependent ∧ p ∉ d.fixed)))) := by
+  unfold check2 at h
+  cases hc : d.conditionalOn with
+  | none => rw [hc] at h; cases h
+  | some t =>
+    rw [hc] at h
+    simp only at h
+    refine ⟨by simp, ?_⟩
+    cases hfind : d.dependent.find? (fun p => !d.paramNames.contains p) with
+    | some q =>
+      rw [hfind] at h
+      simp only [Option.some.injEq, Prod.mk.injEq] at h
+      obtain ⟨rfl, rfl⟩ := h
+      left
+      have hm := List.mem_of_find?_eq_some hfind
+      have hp := List.find?_some hfind
+      exact ⟨rfl, hm, by simpa using hp⟩
+    | none =>
+      rw [hfind] at h
+      right
+      have hall : ∀ q ∈ d.dependent, q ∈ d.paramNames := by
+        intro q hq
+        have := List.find?_eq_none.mp hfind q hq
+        simpa using this
+      obtain ⟨h1, h2⟩ := paramCheck_some d d.paramNames c p h
+      exact ⟨hall, h1, h2⟩
 
 theorem check1_none_iff (i : Nat) (d : DimDesc) :
     check1 true i d = none ↔
@@ -331,6 +428,42 @@ theorem first_error_position (ds : List DimDesc) (e : Err) (h : validateDesc ds 
         have hok : phase3 (d :: rest) = .ok () := this.mpr (by simp)
         rw [hok] at h3; cases h3
 
+theorem check1_some (hier : Bool) (i : Nat) (d : DimDesc) (c : Check) (h : check1 hier i d = some c) :
+    c = .missingDistribution ∨ c = .missingParameters ∨ c = .unknownKeys ∨ c = .hierarchy := by
+  unfold check1 at h
+  split_ifs at h
+  · exact Or.inl (Option.some.inj h).symm
+  · exact Or.inr (Or.inl (Option.some.inj h).symm)
+  · exact Or.inr (Or.inr (Or.inl (Option.some.inj h).symm))
+  · right; right; right
+    split at h
+    · cases h
+    · exact (Option.some.inj h).symm
+    · split_ifs at h
+      exact (Option.some.inj h).symm
+
+/-- **P1 (first error, parameter errors).** `first_error_position` composed with `check2_some`: when
+the constructor reports `unknownParam` / `paramBoth` / `paramNeither`, every dimension passed
+`_check_dist_descriptions`, the named dimension is conditional and the named parameter `e.arg` really is
+an unknown key of its `parameters` dict, resp. a parameter of its distribution that is both fixed and
+dependent, resp. neither. -/
+theorem first_error_param_meaning (ds : List DimDesc) (e : Err) (h : validateDesc ds = .error e)
+    (hc : e.check = .unknownParam ∨ e.check = .paramBoth ∨ e.check = .paramNeither) :
+    (∀ j (hj : j < ds.length), check1 true j ds[j] = none) ∧
+    ∃ hi : e.pos < ds.length, ds[e.pos].conditionalOn ≠ none ∧
+      ((e.check = .unknownParam ∧ e.arg ∈ ds[e.pos].dependent ∧ e.arg ∉ ds[e.pos].paramNames) ∨
+       ((∀ q ∈ ds[e.pos].dependent, q ∈ ds[e.pos].paramNames) ∧ e.arg ∈ ds[e.pos].paramNames ∧
+         ((e.check = .paramBoth ∧ e.arg ∈ ds[e.pos].dependent ∧ e.arg ∈ ds[e.pos].fixed) ∨
+          (e.check = .paramNeither ∧ e.arg ∉ ds[e.pos].dependent ∧ e.arg ∉ ds[e.pos].fixed)))) := by
+  rcases first_error_position ds e h with ⟨hi, h1, _, _⟩ | ⟨hall, hi, h2, _⟩ | ⟨_, he⟩
+  · exfalso
+    rcases check1_some _ _ _ _ h1 with h' | h' | h' | h' <;> rw [h'] at hc <;> simp at hc
+  · obtain ⟨a, b⟩ := check2_some _ _ _ h2
+    exact ⟨hall, hi, a, b⟩
+  · exfalso
+    rw [he] at hc
+    simp at hc
+
 /-- the dimension named in the error really is ill-formed -/
 theorem first_error_dim_illformed (ds : List DimDesc) (e : Err) (h : validateDesc ds = .error e)
     (hne : ds ≠ []) : ∃ hi : e.pos < ds.length, ¬ DimOK e.pos ds[e.pos] := by
@@ -351,7 +484,8 @@ def nonHierWitness : List DimDesc :=
    ⟨true, some (.idx 2), true, [], [0, 1], [], [0, 1]⟩,
    ⟨true, none, false, [], [0, 1], [], []⟩]
 
-/-- The old constructor accepted descriptions that violate the hierarchy: dimension 1
+/-- COUNTER-MODEL theorem (about `validateDescOld`, the constructor before fix 61af94e, which no driver op
+runs on the present tree). The old constructor accepted descriptions that violate the hierarchy: dimension 1
 conditional on dimension 2 (also on itself, on 5, on −1, on "a"). -/
 theorem old_validate_accepts_non_hier_counterexample :
     validateDescOld nonHierWitness = .ok () ∧ ¬ WellFormedModel nonHierWitness ∧
@@ -606,35 +740,92 @@ theorem fit_ok_iff_wellformed (f : FitSpec) : validateFit f = .ok () ↔ WellFor
     rw [(dimFitCheck_none_iff _ _).mpr (hall i hi')]
     rfl
 
-/-- **P1 (fit, first error).** A per-dimension fit error names the first offending dimension:
-all earlier dimensions pass their slicer / method / weights checks (and are therefore fitted
-before the exception is raised). -/
-theorem fit_first_error_position (f : FitSpec) (e : Err) (hd : checkDescs f = .ok ())
-    (hdat : checkData f = .ok ()) (h : validateFit f = .error e) :
-    ∃ hi : e.pos < f.dims.length, ¬ FitDimOK f e.pos f.dims[e.pos] ∧
+/-- the per-dimension loop of `fit` in isolation: its error names the first offending dimension,
+reports the check `dimFitCheck` returns there (slicer reference / too few intervals / method /
+weights), has no argument, and every earlier dimension passes -/
+theorem fitLoop_error (f : FitSpec) (e : Err) (hd : checkDescs f = .ok ()) (h : fitLoop f = .error e) :
+    ∃ hi : e.pos < f.dims.length,
+      dimFitCheck (f.dims[e.pos], descAt f e.pos) = some e.check ∧ e.arg = 0 ∧
+      ¬ FitDimOK f e.pos f.dims[e.pos] ∧
       ∀ j (hj : j < e.pos), FitDimOK f j (f.dims[j]'(Nat.lt_trans hj hi)) := by
   have hlen := filledDescs_length f ((checkDescs_ok_iff f).mp hd)
-  unfold validateFit at h
-  rw [hd, hdat] at h
-  simp only [andThen] at h
   unfold fitLoop at h
-  obtain ⟨i, hi, hp, hc, hb⟩ := firstFail_error _ 0 _ e h
-  simp only [Nat.zero_add] at hp hc hb
-  subst hp
+  obtain ⟨hi, hc, ha, hb⟩ := firstFail_map_error dimFitCheck _ e h
   have hi' : e.pos < f.dims.length := by simp [hlen] at hi; exact hi
-  refine ⟨hi', ?_, ?_⟩
+  simp only [List.getElem_zip] at hc
+  rw [filledDescs_getElem] at hc
+  refine ⟨hi', hc, ha, ?_, ?_⟩
   · intro hok
-    simp only [List.getElem_zip] at hc
-    rw [filledDescs_getElem] at hc
     rw [(dimFitCheck_none_iff _ _).mpr hok] at hc
     cases hc
   · intro j hj
     have := hb j hj
     simp only [List.getElem_zip] at this
     rw [filledDescs_getElem] at this
-    cases hk : dimFitCheck (f.dims[j], descAt f j) with
-    | some c => simp [hk] at this
-    | none => exact (dimFitCheck_none_iff _ _).mp hk
+    exact (dimFitCheck_none_iff _ _).mp this
+
+/-- **P1 (fit, first error of the per-dimension loop).** When the fit descriptions and the data
+shape are accepted, the error names the first offending dimension, the reported check is the one
+`dimFitCheck` finds there (unknown reference keyword / reference type / too few intervals / no interval /
+method type / unknown method / lsq unsupported / unknown weights / weights type / non-finite weights), its
+argument is 0, and all earlier dimensions pass their slicer / method / weights checks (and are therefore
+fitted before the exception is raised).  The errors that `hd` / `hdat` exclude (description length,
+missing 'method', data shape) are covered by `fit_error_cases`. -/
+theorem fit_first_error_position (f : FitSpec) (e : Err) (hd : checkDescs f = .ok ())
+    (hdat : checkData f = .ok ()) (h : validateFit f = .error e) :
+    ∃ hi : e.pos < f.dims.length,
+      dimFitCheck (f.dims[e.pos], descAt f e.pos) = some e.check ∧ e.arg = 0 ∧
+      ¬ FitDimOK f e.pos f.dims[e.pos] ∧
+      ∀ j (hj : j < e.pos), FitDimOK f j (f.dims[j]'(Nat.lt_trans hj hi)) := by
+  unfold validateFit at h
+  rw [hd, hdat] at h
+  simp only [andThen] at h
+  exact fitLoop_error f e hd h
+
+theorem missingMethodCheck_some (d : Option FitDesc) (c : Check) (h : missingMethodCheck d = some c) :
+    c = .missingMethod ∧ ∃ x, d = some x ∧ x.hasMethod = false := by
+  cases d with
+  | none => simp [missingMethodCheck] at h
+  | some x =>
+    cases hm : x.hasMethod with
+    | true => simp [missingMethodCheck, hm] at h
+    | false => simp [missingMethodCheck, hm] at h; exact ⟨h.symm, x, rfl, hm⟩
+
+/-- **P1 (fit, EVERY error).** Whatever `fit` rejects, the error is one of exactly four kinds, in
+the code's order: (1) fit descriptions of the wrong length; (2) the FIRST description without a
+'method' key, at its position; (3) the data shape (`checkData_error` says which of scalar / wrong last
+axis / flat); (4) the per-dimension loop, as in `fit_first_error_position`. -/
+theorem fit_error_cases (f : FitSpec) (e : Err) (h : validateFit f = .error e) :
+    (∃ l, f.descs = some l ∧ l.length ≠ f.dims.length ∧ e = ⟨.fitLength, 0, 0⟩) ∨
+    (∃ l, f.descs = some l ∧ l.length = f.dims.length ∧ ∃ hi : e.pos < l.length,
+        e.check = .missingMethod ∧ e.arg = 0 ∧ (∃ x, l[e.pos] = some x ∧ x.hasMethod = false) ∧
+        ∀ j (hj : j < e.pos), missingMethodCheck (l[j]'(Nat.lt_trans hj hi)) = none) ∨
+    (checkDescs f = .ok () ∧ checkData f = .error e) ∨
+    (checkDescs f = .ok () ∧ checkData f = .ok () ∧ ∃ hi : e.pos < f.dims.length,
+        dimFitCheck (f.dims[e.pos], descAt f e.pos) = some e.check ∧ e.arg = 0 ∧
+        ¬ FitDimOK f e.pos f.dims[e.pos] ∧
+        ∀ j (hj : j < e.pos), FitDimOK f j (f.dims[j]'(Nat.lt_trans hj hi))) := by
+  unfold validateFit at h
+  rcases andThen_error _ _ _ h with h1 | ⟨h1, h23⟩
+  · unfold checkDescs at h1
+    cases hl : f.descs with
+    | none => rw [hl] at h1; cases h1
+    | some l =>
+      rw [hl] at h1
+      simp only at h1
+      by_cases hlen : l.length = f.dims.length
+      · right; left
+        rw [if_neg (by simpa using hlen)] at h1
+        obtain ⟨hi, hc, ha, hb⟩ := firstFail_map_error missingMethodCheck l e h1
+        obtain ⟨hk, hx⟩ := missingMethodCheck_some _ _ hc
+        exact ⟨l, rfl, hlen, hi, hk, ha, hx, hb⟩
+      · left
+        rw [if_pos (by simpa using hlen)] at h1
+        exact ⟨l, rfl, hlen, (Except.error.inj h1).symm⟩
+  · rcases andThen_error _ _ _ h23 with h2 | ⟨h2, h3⟩
+    · right; right; left; exact ⟨h1, h2⟩
+    · right; right; right
+      exact ⟨h1, h2, fitLoop_error f e h1 h3⟩
 
 /-- non-vacuity: Hs (exp. Weibull, wlsq / quadratic), Tz | Hs with 5 ≥ 3 intervals, default fit -/
 example : validateFit ⟨[⟨none, true⟩, ⟨some ⟨.width, .center, 5, 3⟩, false⟩],
@@ -822,28 +1013,127 @@ example : validateGrid ⟨2, some [.nonNumeric, .tuple 2], .scalar .pos⟩ = .er
 example : validateGrid ⟨2, some [.tuple 2, .nonFinite], .none⟩ = .error ⟨.limitNonFinite, 1, 0⟩ := by decide
 
 
-/-- **P1 (HDC, first error).** When lengths are right, the limit / step error raised by the loop
-of `_compute` names the first offending dimension. -/
-theorem grid_first_error_position (g : GridSpec) (e : Err) (h1 : checkLimitsLength g = .ok ())
+/-- the loop of `_compute` in isolation (kept: the part of `grid_first_error_position` for which both
+length checks passed) -/
+theorem grid_first_error_position_compute_loop (g : GridSpec) (e : Err) (h1 : checkLimitsLength g = .ok ())
     (h2 : checkDeltas g = .ok ()) (h : computeLoop g = .error e) :
     validateGrid g = .error e ∧
     ∃ hi : e.pos < ((gridLimits g).zip (gridDeltas g)).length,
-      cellCheck ((gridLimits g).zip (gridDeltas g))[e.pos] = some e.check ∧
+      cellCheck ((gridLimits g).zip (gridDeltas g))[e.pos] = some e.check ∧ e.arg = 0 ∧
       ∀ j (hj : j < e.pos), cellCheck (((gridLimits g).zip (gridDeltas g))[j]'(Nat.lt_trans hj hi)) = none := by
   refine ⟨by simp [validateGrid, andThen, h1, h2, h], ?_⟩
   unfold computeLoop at h
-  obtain ⟨i, hi, hp, hc, hb⟩ := firstFail_error _ 0 _ e h
-  simp only [Nat.zero_add] at hp hc hb
-  subst hp
-  refine ⟨hi, ?_, ?_⟩
-  · cases hk : cellCheck ((gridLimits g).zip (gridDeltas g))[e.pos] with
-    | none => rw [hk] at hc; cases hc
-    | some c => rw [hk] at hc; simp only [Option.map_some, Option.some.injEq, Prod.mk.injEq] at hc; rw [hc.1]
-  · intro j hj
-    have := hb j hj
-    cases hk : cellCheck (((gridLimits g).zip (gridDeltas g))[j]'(Nat.lt_trans hj hi)) with
-    | none => rfl
-    | some c => rw [hk] at this; cases this
+  exact firstFail_map_error cellCheck _ e h
+
+theorem defaultDeltaCheck_some (l : LimTag) (c : Check) (h : defaultDeltaCheck l = some c) :
+    (l = .scalar ∧ c = .limitSubscript) ∨ (∃ k, l = .tuple k ∧ k < 2 ∧ c = .limitIndex) ∨
+    (l = .nonNumeric ∧ c = .limitEntry) := by
+  cases l with
+  | scalar => simp [defaultDeltaCheck] at h; exact Or.inl ⟨rfl, h.symm⟩
+  | nonNumeric => simp [defaultDeltaCheck] at h; exact Or.inr (Or.inr ⟨rfl, h.symm⟩)
+  | nonFinite => simp [defaultDeltaCheck] at h
+  | tuple k =>
+    by_cases hk : k < 2
+    · simp [defaultDeltaCheck, hk] at h; exact Or.inr (Or.inl ⟨k, rfl, hk, h.symm⟩)
+    · simp [defaultDeltaCheck, hk] at h
+
+/-- **P1 (HDC, EVERY error, first position).** Whatever the HighestDensityContour constructor
+rejects about limits / deltas, the error is one of exactly five kinds, in the code's order:
+(1) limits of the wrong length; (2) a deltas list of the wrong length; (3) default deltas: the FIRST
+limit entry from which no default step can be computed - a scalar (`limitSubscript`), a sequence with
+fewer than two entries (`limitIndex`), non-numeric entries (`limitEntry`) - at its position; (4) the
+loop of `_compute`: the FIRST dimension whose limit is not a 2-tuple of finite numbers or whose step is
+zero / NaN, with the check `cellCheck` reports there; (5) the FIRST negative step (`deltaNegative`, an
+empty axis), when every dimension passed (4). -/
+theorem grid_first_error_position (g : GridSpec) (e : Err) (h : validateGrid g = .error e) :
+    (∃ l, g.limits = some l ∧ l.length ≠ g.nDim ∧ e = ⟨.limitsLength, 0, 0⟩) ∨
+    (checkLimitsLength g = .ok () ∧ ∃ vs, g.deltas = .list vs ∧ vs.length ≠ g.nDim ∧
+        e = ⟨.deltasLength, 0, 0⟩) ∨
+    (checkLimitsLength g = .ok () ∧ g.deltas = .none ∧ ∃ hi : e.pos < (gridLimits g).length,
+        defaultDeltaCheck (gridLimits g)[e.pos] = some e.check ∧ e.arg = 0 ∧
+        (e.check = .limitSubscript ∨ e.check = .limitIndex ∨ e.check = .limitEntry) ∧
+        ∀ j (hj : j < e.pos), defaultDeltaCheck ((gridLimits g)[j]'(Nat.lt_trans hj hi)) = none) ∨
+    (checkLimitsLength g = .ok () ∧ checkDeltas g = .ok () ∧
+      ∃ hi : e.pos < ((gridLimits g).zip (gridDeltas g)).length,
+        cellCheck ((gridLimits g).zip (gridDeltas g))[e.pos] = some e.check ∧ e.arg = 0 ∧
+        ∀ j (hj : j < e.pos),
+          cellCheck (((gridLimits g).zip (gridDeltas g))[j]'(Nat.lt_trans hj hi)) = none) ∨
+    (checkLimitsLength g = .ok () ∧ checkDeltas g = .ok () ∧ computeLoop g = .ok () ∧
+      e.check = .deltaNegative ∧ e.arg = 0 ∧ ∃ hi : e.pos < (gridDeltas g).length,
+        (gridDeltas g)[e.pos] = .neg ∧
+        ∀ j (hj : j < e.pos), (gridDeltas g)[j]'(Nat.lt_trans hj hi) ≠ .neg) := by
+  unfold validateGrid at h
+  rcases andThen_error _ _ _ h with h1 | ⟨h1, h234⟩
+  · left
+    unfold checkLimitsLength at h1
+    cases hl : g.limits with
+    | none => rw [hl] at h1; cases h1
+    | some l =>
+      rw [hl] at h1
+      simp only at h1
+      by_cases hlen : l.length = g.nDim
+      · rw [if_neg (by simpa using hlen)] at h1; cases h1
+      · rw [if_pos (by simpa using hlen)] at h1
+        exact ⟨l, rfl, hlen, (Except.error.inj h1).symm⟩
+  · right
+    rcases andThen_error _ _ _ h234 with h2 | ⟨h2, h34⟩
+    · unfold checkDeltas at h2
+      cases hdl : g.deltas with
+      | scalar v => rw [hdl] at h2; cases h2
+      | list vs =>
+        left
+        rw [hdl] at h2
+        simp only at h2
+        by_cases hlen : vs.length = g.nDim
+        · rw [if_neg (by simpa using hlen)] at h2; cases h2
+        · rw [if_pos (by simpa using hlen)] at h2
+          exact ⟨h1, vs, rfl, hlen, (Except.error.inj h2).symm⟩
+      | none =>
+        right; left
+        rw [hdl] at h2
+        simp only at h2
+        obtain ⟨hi, hc, ha, hb⟩ := firstFail_map_error defaultDeltaCheck _ e h2
+        refine ⟨h1, rfl, hi, hc, ha, ?_, hb⟩
+        rcases defaultDeltaCheck_some _ _ hc with ⟨_, h⟩ | ⟨_, _, _, h⟩ | ⟨_, h⟩
+        · exact Or.inl h
+        · exact Or.inr (Or.inl h)
+        · exact Or.inr (Or.inr h)
+    · right; right
+      rcases andThen_error _ _ _ h34 with h3 | ⟨h3, h4⟩
+      · left
+        exact ⟨h1, h2, (grid_first_error_position_compute_loop g e h1 h2 h3).2⟩
+      · right
+        unfold negCheck at h4
+        obtain ⟨i, hi, hp, hc, hb⟩ := firstFail_error _ 0 _ e h4
+        simp only [Nat.zero_add] at hp hc hb
+        subst hp
+        by_cases hneg : (gridDeltas g)[e.pos] = DVal.neg
+        · rw [if_pos hneg] at hc
+          simp only [Option.some.injEq, Prod.mk.injEq] at hc
+          refine ⟨h1, h2, h3, hc.1.symm, hc.2.symm, hi, hneg, ?_⟩
+          intro j hj hn
+          have := hb j hj
+          rw [if_pos hn] at this
+          cases this
+        · rw [if_neg hneg] at hc; cases hc
+
+/-- non-vacuity of the five cases of `grid_first_error_position`, incl. the positions the former
+statement excluded through `checkDeltas g = .ok ()` -/
+example : validateGrid ⟨2, some [.tuple 2], .none⟩ = .error ⟨.limitsLength, 0, 0⟩ ∧
+    validateGrid ⟨2, some [.tuple 2, .tuple 2], .list [.pos]⟩ = .error ⟨.deltasLength, 0, 0⟩ ∧
+    validateGrid ⟨3, some [.tuple 2, .scalar, .tuple 1], .none⟩ = .error ⟨.limitSubscript, 1, 0⟩ ∧
+    validateGrid ⟨3, some [.tuple 2, .tuple 2, .tuple 1], .none⟩ = .error ⟨.limitIndex, 2, 0⟩ ∧
+    validateGrid ⟨2, some [.tuple 2, .tuple 2], .list [.pos, .zero]⟩ = .error ⟨.deltaStep, 1, 0⟩ ∧
+    validateGrid ⟨3, none, .list [.pos, .neg, .neg]⟩ = .error ⟨.deltaNegative, 1, 0⟩ := by decide
+
+/-- `grid_ok_iff_wellformed` needs `0 < nDim`: for the (non-existent: `model_desc_ok_iff_wellformed`
+demands a non-empty description) 0-dimensional model the loops of the MODEL run over no dimension and
+accept e.g. a zero scalar step - an artefact of the model at `nDim = 0`, not a statement about the
+code -/
+example : validateGrid ⟨0, none, .scalar .zero⟩ = .ok () ∧ ¬ WellFormedGrid ⟨0, none, .scalar .zero⟩ := by
+  refine ⟨by decide, ?_⟩
+  intro h
+  exact absurd h.2 (by decide)
 
 /-! ### slicers -/
 
@@ -872,16 +1162,41 @@ theorem slicer_ok_iff_wellformed (s : SlicerSpec) :
     · by_cases hr : s.ref = .callable <;> simp [hk, hr]
     · simp [hk]
 
+/-- the `min_n_intervals` test of `slice_` in isolation: for a valid reference keyword (and, for a
+PointsPerIntervalSlicer, at least one kept interval) `tooFewIntervals` is reported iff fewer than
+`minN` intervals remain -/
+theorem sliceCheck_tooFew_iff (s : SliceInfo)
+    (hr : s.kind ≠ .ppi → s.ref ≠ .unknownStr ∧ s.ref ≠ .other)
+    (hk : s.kind = .ppi → 0 < s.nKept) :
+    sliceCheck s = some .tooFewIntervals ↔ s.nKept < s.minN := by
+  obtain ⟨kind, ref, n, m⟩ := s
+  cases kind <;> cases ref <;> simp [sliceCheck] at hr hk ⊢ <;>
+    (by_cases h1 : n < m <;> by_cases h0 : n = 0 <;> simp [h1, h0] <;> omega)
+
 /-- too few intervals is an error exactly when fewer than `min_n_intervals` (lowered to
-`n_intervals` by a NumberOfIntervalsSlicer) remain -/
+`n_intervals` by a NumberOfIntervalsSlicer) remain - for EVERY slicer whose reference keyword is
+valid: 'center' / 'left' / 'right' or a callable for Width/NumberOfIntervals slicers (`hr`; an invalid
+keyword is reported first), a PointsPerIntervalSlicer (whose reference is a callable by `hc`) with at
+least one interval kept (`hk`; with none kept its `IndexError` comes first). -/
 theorem slicer_too_few_iff (s : SlicerSpec) (hc : validateSlicerCtor s = .ok ())
-    (hr : s.ref = .callable) (hk : 0 < s.nKept) :
+    (hr : s.kind ≠ .ppi → s.ref ≠ .unknownStr ∧ s.ref ≠ .other)
+    (hk : s.kind = .ppi → 0 < s.nKept) :
     validateSlicer s = .error ⟨.tooFewIntervals, 0, 0⟩ ↔ s.nKept < effMin s := by
   unfold validateSlicer
   rw [hc]
-  simp only [andThen, validateSlice, sliceCheck, hr]
-  have hk' : s.nKept ≠ 0 := by omega
-  cases s.kind <;> by_cases hlt : s.nKept < effMin s <;> simp [hk', hlt]
+  simp only [andThen, validateSlice]
+  rw [← sliceCheck_tooFew_iff ⟨s.kind, s.ref, s.nKept, effMin s⟩ hr hk]
+  cases sliceCheck ⟨s.kind, s.ref, s.nKept, effMin s⟩ with
+  | none => simp
+  | some c => cases c <;> simp
+
+/-- non-vacuity of `slicer_too_few_iff` for keyword references (the former statement demanded a
+callable reference and so excluded every 'center' / 'left' / 'right' slicer) -/
+example : validateSlicerCtor ⟨.width, [], .center, 0, 3, 2⟩ = .ok () ∧
+    validateSlicer ⟨.width, [], .left, 0, 3, 2⟩ = .error ⟨.tooFewIntervals, 0, 0⟩ ∧
+    validateSlicer ⟨.number, [], .right, 2, 3, 2⟩ = .ok () ∧
+    validateSlicer ⟨.ppi, [], .callable, 0, 3, 2⟩ = .error ⟨.tooFewIntervals, 0, 0⟩ ∧
+    validateSlicer ⟨.ppi, [], .callable, 0, 3, 0⟩ = .error ⟨.noIntervalPpi, 0, 0⟩ := by decide
 
 example : validateSlicer ⟨.number, [], .center, 2, 3, 2⟩ = .ok () := by decide
 example : validateSlicer ⟨.width, [], .center, 0, 3, 2⟩ = .error ⟨.tooFewIntervals, 0, 0⟩ := by decide
@@ -889,7 +1204,8 @@ example : validateSlicer ⟨.ppi, [], .center, 0, 3, 5⟩ = .error ⟨.reference
 
 /-! ### evaluation points, 2-D-only contours, IFORM model type -/
 
-/-- **P1 (points).** `pdf` / `cdf` accept the points iff every coordinate is finite. -/
+/-- **P1 (points).** `pdf` / `cdf` accept the points iff every coordinate is finite (the model function is
+`List.all`; this is its `∀` reading, little more than an unfolding). -/
 theorem points_ok_iff_wellformed (rows : List (List PtTag)) :
     validatePoints rows = .ok () ↔ ∀ r ∈ rows, ∀ t ∈ r, t = .finite := by
   unfold validatePoints
@@ -902,23 +1218,22 @@ theorem points_ok_iff_wellformed (rows : List (List PtTag)) :
     apply h
     simpa using hall
 
-/-- **P1 (HDC, NaN density).** The contour is computed iff the cell-averaged density has no NaN. -/
-theorem density_ok_iff_wellformed (hasNan : Bool) : validateDensity hasNan = .ok () ↔ hasNan = false := by
+/-- (one-step unfolding of `validateDensity`) The contour is computed iff the cell-averaged density has no NaN. -/
+theorem density_ok_iff_unfold (hasNan : Bool) : validateDensity hasNan = .ok () ↔ hasNan = false := by
   cases hasNan <;> simp [validateDensity]
 
-/-- **P1 (2-D only).** DirectSampling / And / Or contours compute only for 2-dimensional models. -/
-theorem twod_ok_iff_wellformed (n : Nat) : validateTwoD n = .ok () ↔ n = 2 := by
+/-- (one-step unfolding of `validateTwoD`) DirectSampling / And / Or contours compute only for 2-dimensional models. -/
+theorem twod_ok_iff_unfold (n : Nat) : validateTwoD n = .ok () ↔ n = 2 := by
   unfold validateTwoD
   by_cases h : n = 2 <;> simp [h]
 
-/-- **P1 (IFORM).** IFORMContour accepts exactly GlobalHierarchicalModel and TransformedModel. -/
-theorem iform_model_ok_iff_wellformed (t : ModelTypeTag) :
+/-- (one-step unfolding of `validateIformModel`) IFORMContour accepts exactly GlobalHierarchicalModel and TransformedModel. -/
+theorem iform_model_ok_iff_unfold (t : ModelTypeTag) :
     validateIformModel t = .ok () ↔ t = .ghm ∨ t = .transformed := by
   cases t <;> simp [validateIformModel]
 
-/-- every modelled rejection is one of the exception classes of the enum; the two
-`ValueError`-only entry points -/
-theorem points_error_kind (rows : List (List PtTag)) (e : Err) (h : validatePoints rows = .error e) :
+/-- (one-step unfolding of `validatePoints` and `Check.kind`) the only error of `pdf` / `cdf` points is a `ValueError` -/
+theorem points_error_kind_unfold (rows : List (List PtTag)) (e : Err) (h : validatePoints rows = .error e) :
     e.check.kind = .valueError := by
   unfold validatePoints at h
   split at h
